@@ -24,6 +24,9 @@ pub struct AuthUrlCase {
     pub scopes: Vec<String>,
     pub extras: Vec<(String, String)>,
     pub state: String,
+    /// configure the four other endpoints after the redirect was set (a setter that resets it would show)
+    #[serde(default)]
+    pub noise: bool,
 }
 
 pub const AUTH_ENDPOINTS: &[&str] = &[
@@ -86,6 +89,7 @@ impl CaseInput for AuthUrlCase {
                 })
                 .collect(),
             state: gen::hostile_s(r),
+            noise: r.chance(1, 2),
         }
     }
 
@@ -96,11 +100,25 @@ impl CaseInput for AuthUrlCase {
         }
         let calls = Cell::new(0u32);
         let first_state = format!("{}{}", self.state, 1);
-        let mut rq = client.authorize_url(|| {
+        let state_fn = || {
             calls.set(calls.get() + 1);
             // counter-stamped: a second invocation would yield a different token
             CsrfToken::new(format!("{}{}", self.state, calls.get()))
-        });
+        };
+        let (noisy, plain);
+        let mut rq: AuthorizationRequest = if self.noise {
+            noisy = client
+                .set_device_authorization_url(DeviceAuthorizationUrl::new("https://noise.example/dev".into()).unwrap())
+                .set_introspection_url_option(Some(IntrospectionUrl::new("https://noise.example/intro".into()).unwrap()))
+                .set_revocation_url(RevocationUrl::new("https://noise.example/revoke".into()).unwrap())
+                .set_token_uri_option(None)
+                .set_client_secret(ClientSecret::new("noise".into()))
+                .set_auth_type(AuthType::RequestBody);
+            noisy.authorize_url(state_fn)
+        } else {
+            plain = client;
+            plain.authorize_url(state_fn)
+        };
         let custom = ResponseType::new(self.custom_rt.clone());
         match self.rt {
             1 => rq = rq.use_implicit_flow(),
